@@ -272,6 +272,8 @@ NOT_YET = "model and proof not built yet in this development (see DESIGN.md 6 fo
 
 # late additions (DESIGN.md 12.5 round 6): appended to the claim texts
 EXTRA = {
+    "C03": "Thorough tier: patience of the shared spin-until loop (fiber_manager_wake_from_mpsc_queue, count == 1): the announced waiter is "
+           "stopped for 5 million steps of the unlocker (1.25 million loop iterations) and must still be handed the mutex.",
     "C06": "rt/h_init.c also runs the real post natively from the reachable state 'one waiter announced, queue still empty' with a queue stub "
            "that shows the waiter only at look K+1 (K up to 2^22): the post must wait it out (patience of the retry loop).",
     "C07": "rt/h_init.c injects word states that rw_word_inv characterises as reachable (n readers; writer + n waiting; n around the powers of "
@@ -283,7 +285,9 @@ EXTRA = {
     "C11": "Because the T1 machine has no migration and no descriptor waits, every run also executes whole-runtime (T2) programs of channel "
            "sends/receives and multi-signal waits mixed with the other kinds of suspension (descriptor wait ended by close, sleep, join), "
            "judged by the kernel acceptor's monitor.",
-    "C12": "The harness object is built by the real fiber_barrier_init on 0x5a-filled memory (only the queue stub nodes are replaced).",
+    "C12": "The harness object is built by the real fiber_barrier_init on 0x5a-filled memory (only the queue stub nodes are replaced). "
+           "Thorough tier: a participant that has arrived but not enqueued is stopped for 5 million steps of the serial fiber (general "
+           "path of the shared wake loop) and must still be released.",
     "C16": "Case families include counters crossing 2^16/2^31/2^32/2^33 and a claim stalled across a lap of the ring.",
     "C19": "The whole-runtime layer also runs mixed-suspension programs (what one kind of wait leaves in the fiber is what the next starts from).",
 }
